@@ -36,6 +36,8 @@ structure MCfg where
   stack : List MFrame := []
   /-- number of list objects in the world (only used by `foreign`) -/
   nlists : Nat := 1
+  /-- ghost: how often a `getNextCounter` of this world took its wrap branch -/
+  wraps : Nat := 0
 
 namespace MCfg
 
@@ -69,14 +71,17 @@ def seekCall (beh : Beh) (c : MCfg) (l : Nat) (start : Option Nat) (cap arg : Na
 /-- commands that are not traversals: new world and result -/
 def apply (c : MCfg) (busy : Nat → Bool) : Cmd → MCfg × Res
   | .append l cb =>
-    ({ c with lists := upd c.lists l ((c.lists l).append c.fuel c.nextId cb), nextId := c.nextId + 1 },
+    ({ c with lists := upd c.lists l ((c.lists l).append c.fuel c.nextId cb), nextId := c.nextId + 1,
+              wraps := c.wraps + (if (c.lists l).willWrap then 1 else 0) },
       .handle c.nextId)
   | .prepend l cb =>
-    ({ c with lists := upd c.lists l ((c.lists l).prepend c.fuel c.nextId cb), nextId := c.nextId + 1 },
+    ({ c with lists := upd c.lists l ((c.lists l).prepend c.fuel c.nextId cb), nextId := c.nextId + 1,
+              wraps := c.wraps + (if (c.lists l).willWrap then 1 else 0) },
       .handle c.nextId)
   | .insert l cb b =>
     if c.foreign l b then (c, .unit) else
-    ({ c with lists := upd c.lists l ((c.lists l).insert c.fuel c.nextId cb b), nextId := c.nextId + 1 },
+    ({ c with lists := upd c.lists l ((c.lists l).insert c.fuel c.nextId cb b), nextId := c.nextId + 1,
+              wraps := c.wraps + (if (c.lists l).willWrap then 1 else 0) },
       .handle c.nextId)
   | .remove l h =>
     if c.foreign l h then (c, .unit) else
@@ -94,13 +99,13 @@ def apply (c : MCfg) (busy : Nat → Bool) : Cmd → MCfg × Res
   | .moveAssign dst src =>
     if dst = src ∨ busy dst ∨ busy src then (c, .unit) else
     let s := c.lists src
-    ({ c with lists := upd (upd c.lists dst s) src { cur := s.cur, M := s.M, wraps := s.wraps } }, .unit)
+    ({ c with lists := upd (upd c.lists dst s) src { cur := s.cur, M := s.M } }, .unit)
   | .swap a b =>
     if busy a ∨ busy b then (c, .unit) else
     ({ c with lists := upd (upd c.lists a (c.lists b)) b (c.lists a) }, .unit)
   | .setCounter l k =>
     let s := c.lists l
-    ({ c with lists := upd c.lists l { s with cur := max s.cur (s.M - k) } }, .unit)
+    ({ c with lists := upd c.lists l { s with cur := if 0 < k ∧ k ≤ s.M then max s.cur (s.M - k) else s.cur } }, .unit)
   | .invoke _ _ => (c, .unit)
   | .enum _ _ => (c, .unit)
 
